@@ -21,7 +21,16 @@ func genQueryName(c *Chooser, uid uint16, captured []string) (string, string) {
 	letters := "vlsmrtzycoVLSMRTZYCOabxq019-"
 	b36 := "0123456789abcdefghijklmnopqrstuvwxyz"
 	user := func() string {
-		switch c.Pick(6, "uid-kind") {
+		switch c.Pick(9, "uid-kind") {
+		case 6:
+			// signs and other non-base-36 characters a lenient number parser might accept
+			return []string{"-1", "-z", "+1", "+z", "-0", "1-", "1e", "0x", "_1", " 1"}[c.Pick(10, "odd-uid")]
+		case 7:
+			// any two printable characters
+			pr := "!#$%&'*+,-/0123456789:<=>?ABCXYZ[]^_`abcxyz{|}~"
+			return string([]byte{pr[c.Pick(len(pr), "p1")], pr[c.Pick(len(pr), "p2")]})
+		case 8:
+			return "zz" // 1295: the largest id two base-36 digits can name
 		case 0:
 			return string([]byte{b36[uid/36%36], b36[uid%36]})
 		case 1:
